@@ -190,3 +190,85 @@ Proof.
          (all_of [AMat (hide_result_details (any_of [AVal (VInt 1); AVal (VInt 2)])); AVal (VInt 3)]), (VInt 1).
   repeat split; vm_compute; reflexivity.
 Qed.
+
+(* ------------------------------------------------------------------ token-level faithfulness of nested expressions *)
+Section FexprInd.
+  Variable P : fexpr -> Prop.
+  Hypothesis H_FL : forall l, P (FL l).
+  Hypothesis H_FAllN : forall es, Forall P es -> P (FAllN es).
+  Hypothesis H_FAnyN : forall es, Forall P es -> P (FAnyN es).
+  Fixpoint fexpr_ind' (e : fexpr) : P e :=
+    match e with
+    | FL l => H_FL l
+    | FAllN es => H_FAllN es ((fix go (l : list fexpr) : Forall P l :=
+                                 match l with [] => Forall_nil P | x :: r => Forall_cons x (fexpr_ind' x) (go r) end) es)
+    | FAnyN es => H_FAnyN es ((fix go (l : list fexpr) : Forall P l :=
+                                 match l with [] => Forall_nil P | x :: r => Forall_cons x (fexpr_ind' x) (go r) end) es)
+    end.
+End FexprInd.
+
+Lemma all_lits_sem : forall val es, forallb fexpr_is_lit es = true ->
+  forallb (fsem val) es = forallb (lit_sem val) (fexpr_lits es) /\
+  existsb (fsem val) es = existsb (lit_sem val) (fexpr_lits es).
+Proof.
+  intros val es. induction es as [|e es IH]; simpl; auto.
+  destruct e as [l| |]; simpl; try discriminate.
+  intro H. destruct (IH H) as [IHa IHe]. rewrite IHa, IHe. auto.
+Qed.
+
+Lemma all_lits_length : forall es, forallb fexpr_is_lit es = true -> List.length (fexpr_lits es) = List.length es.
+Proof.
+  induction es as [|e es IH]; simpl; auto. destruct e; simpl; try discriminate. intro H. rewrite IH; auto.
+Qed.
+
+Lemma doc_items_or_and : forall ds first, existsb item_is_or (doc_items TAnd ds first) = false.
+Proof. induction ds as [|d r IH]; intro first; simpl; auto. destruct first; simpl; auto. Qed.
+
+Lemma doc_items_or_or : forall ds, existsb item_is_or (doc_items TOr ds true) = match ds with _ :: _ :: _ => true | _ => false end.
+Proof. destruct ds as [|d [|d' r]]; simpl; auto. Qed.
+
+Lemma doc_items_forallb : forall val rel es single first,
+  Forall (fun e => fexpr_wf e = true -> doc_sem val (render single e) = fsem val e) es ->
+  forallb fexpr_wf es = true ->
+  forallb (fun it => doc_sem val (snd it)) (doc_items rel (map (render single) es) first) = forallb (fsem val) es /\
+  existsb (fun it => doc_sem val (snd it)) (doc_items rel (map (render single) es) first) = existsb (fsem val) es.
+Proof.
+  intros val rel es single first H. revert first. induction H as [|e es He Hes IH]; intros first Hwf; simpl; auto.
+  simpl in Hwf. apply andb_true_iff in Hwf. destruct Hwf as [Hwe Hwes].
+  destruct (IH false Hwes) as [IHa IHe]. rewrite He, IHa, IHe; auto.
+Qed.
+
+Lemma doc_sem_render : forall val single e, fexpr_wf e = true -> doc_sem val (render single e) = fsem val e.
+Proof.
+  intros val single. induction e using fexpr_ind'; intro Hwf.
+  - simpl. unfold toks_sem. simpl. rewrite andb_true_r. reflexivity.
+  - simpl in Hwf. destruct es as [|e0 es0]; try discriminate.
+    cbn [render]. destruct (forallb fexpr_is_lit (e0 :: es0) && single (e0 :: es0)) eqn:E.
+    + apply andb_true_iff in E. destruct E as [El _].
+      cbn [doc_sem]. unfold toks_sem. rewrite single_line_or_and, single_line_lits; auto.
+      symmetry. apply (all_lits_sem val _ El).
+    + cbn [doc_sem]. rewrite doc_items_or_and.
+      apply (doc_items_forallb val TAnd (e0 :: es0) single true H Hwf).
+  - simpl in Hwf. destruct es as [|e0 es0]; try discriminate.
+    cbn [render]. destruct (forallb fexpr_is_lit (e0 :: es0) && single (e0 :: es0)) eqn:E.
+    + apply andb_true_iff in E. destruct E as [El _].
+      cbn [doc_sem]. unfold toks_sem. rewrite single_line_or_or, single_line_lits; auto.
+      destruct (all_lits_sem val _ El) as [Ha He]. cbn [fsem]. rewrite He.
+      pose proof (all_lits_length _ El) as Hlen.
+      destruct (fexpr_lits (e0 :: es0)) as [|l [|l' r]] eqn:EL; simpl in *; try discriminate;
+        rewrite ?andb_true_r, ?orb_false_r; reflexivity.
+    + cbn [doc_sem]. rewrite doc_items_or_or.
+      destruct (doc_items_forallb val TOr (e0 :: es0) single true H Hwf) as [Ha He].
+      destruct es0 as [|e1 es1].
+      * rewrite Ha. simpl. rewrite andb_true_r, orb_false_r. reflexivity.
+      * rewrite He. reflexivity.
+Qed.
+
+Lemma faithful_partial_nested : forall s1 s2 e1 e2,
+  fexpr_wf e1 = true -> fexpr_wf e2 = true ->
+  render s1 e1 = render s2 e2 ->
+  forall val, fsem val e1 = fsem val e2.
+Proof.
+  intros s1 s2 e1 e2 H1 H2 E val.
+  rewrite <- (doc_sem_render val s1 e1 H1), <- (doc_sem_render val s2 e2 H2), E. reflexivity.
+Qed.
